@@ -288,9 +288,9 @@ def _dispatch(name: str, args: tuple) -> dict:
 def run(ctx: Ctx) -> None:
     known = sorted(ctx.known_keys())
     q = ctx.quick
-    jobs = [("graph_shard", (ctx.seed * 100 + k, 60 if q else 800, known)) for k in range(6)]
-    jobs += [("tree_shard", ("mem", ctx.seed * 100 + 20 + k, 10 if q else 250, known)) for k in range(5)]
-    jobs += [("tree_shard", ("sqlite", ctx.seed * 100 + 40 + k, 10 if q else 250, known)) for k in range(5)]
+    jobs = [("graph_shard", (ctx.seed * 100 + k, 60 if q else 2500, known)) for k in range(6)]
+    jobs += [("tree_shard", ("mem", ctx.seed * 100 + 20 + k, 10 if q else 700, known)) for k in range(5)]
+    jobs += [("tree_shard", ("sqlite", ctx.seed * 100 + 40 + k, 10 if q else 700, known)) for k in range(5)]
     merge_parts(ctx, pmap(_dispatch, jobs))
     ctx.assumptions.append("wait declarations are generated only on non-final targets (callers check the status first); negative limits are not generated")
     ctx.assumptions.append("liveness is decided in bounded form: only a scheduler-level proof of no progress (observable state unchanged over 32k scheduling steps while every actor keeps being scheduled) is a violation")
